@@ -1,3 +1,4 @@
+import IpcModel.Inproc
 import IpcModel.NoHang
 import IpcModel.Ideal
 /-!
@@ -60,5 +61,9 @@ theorem C09_transit (st : St) (c tag : Nat) (ch : Chan) (hc : st.chans[c]? = som
 after it has been unpacked -/
 example : (Ideal.run [.newChan, .newChan, .send 0 1 [.rcv 1], .send 1 7 [], .recv 0, .recv 1]).2
     = [.ok, .ok, .ok, .ok, .msg 1 [.rcv 1], .msg 7 []] := by decide
+
+/-- **C09_inproc_never_waits** — on the in-process transport a send is one operation on an unbounded queue (regenerated), so it cannot wait for
+a receiver that has vanished; its only failure is the queue's "no receiver" (`BrokenPipeError`). -/
+theorem C09_inproc_never_waits : Gen.inprocUnbounded = true ∧ Gen.inprocSendPassesThrough = true := by decide
 
 end C09
